@@ -3,3 +3,4 @@ import Librfn.Props.C16
 import Librfn.Props.C17
 import Librfn.Props.C19
 import Librfn.Props.C20
+import Librfn.Props.C08
